@@ -164,6 +164,32 @@ def check_entryid(rep, prog, fm):
 def check_src(rep, prog, fm):
     rule = "C10.R4.src"
     q = PT + "parsePelFromSRCID"
+    # every reference code text of 1..32 characters (32 = a complete reference code) is searched for: no argument check may
+    # end the run for it
+    from ..terms import evaluate, CannotEval
+    srcarg = fm.arg("src")
+    bad = None
+    nex = 0
+    for e in fm.events:
+        if e.kind != "exit" or q not in e.stack:
+            continue
+        rel = [c for c in conj(fm.norm(e.guard)) if any(x == srcarg for x in walk(c))]
+        if not rel:
+            continue
+        nex += 1
+        for n_ in (1, 2, 8, 31, 32):
+            text_ = "B" * n_
+            env_ = {srcarg: text_, Op("len", srcarg): n_, Op("truthy", srcarg): True}
+            try:
+                hit = all(bool(evaluate(c, env_)) for c in rel)
+            except CannotEval:
+                hit = False
+            if hit and bad is None:
+                bad = (e, n_)
+    rep.check(bad is None, rule, "--src accepts every text of 1..32 characters", q, bad[0].node if bad else "if len(config.src) > 32",
+              "a reference code text of %d characters ends the run with an argument error instead of being searched for" % (bad[1] if bad else 0),
+              node=bad[0].node if bad else None)
+    rep.count("--src argument checks that can end the run", nex)
     stores = [e for e in fm.events if e.kind == "dict_store" and q in e.stack]
     inc = exc = None
     guards = []
